@@ -119,6 +119,7 @@ type harnessResult struct {
 var (
 	flagCheck   = flag.String("check", "", "check config (JSON)")
 	flagTier    = flag.String("tier", "quick", "quick|thorough")
+	flagWall    = flag.Int("wall", 0, "wall-clock budget per harness exploration in seconds (0: 20 min quick, 90 min thorough)")
 	flagRepo    = flag.String("repo", "/repo", "repository under test")
 	flagVerif   = flag.String("verif", "/verif", "verif root")
 	flagWorkers = flag.Int("workers", 16, "parallel workers")
@@ -664,6 +665,16 @@ func explore(prog *ssa.Program, entry *ssa.Function, h *Harness, mapOrder int, r
 	var mu sync.Mutex
 	var wg sync.WaitGroup
 	nw := *flagWorkers
+	// wall-clock budget per exploration: a changed tree can blow the state space up; the
+	// run then ends inconclusive (or with the violations found so far) instead of never
+	wall := time.Duration(*flagWall) * time.Second
+	if *flagWall == 0 {
+		wall = 20 * time.Minute
+		if *flagTier == "thorough" {
+			wall = 90 * time.Minute
+		}
+	}
+	deadline := time.Now().Add(wall)
 	violPerLabel := map[string]int{}
 	for w := 0; w < nw; w++ {
 		wg.Add(1)
@@ -736,6 +747,11 @@ func explore(prog *ssa.Program, entry *ssa.Function, h *Harness, mapOrder int, r
 					stop = true
 				}
 				if len(res.inconclusive) >= 20 {
+					stop = true
+				}
+				if time.Now().After(deadline) && !res.budgetHit {
+					res.budgetHit = true
+					res.inconclusive = append(res.inconclusive, fmt.Sprintf("wall-clock budget of %s exceeded after %d paths", wall, res.paths))
 					stop = true
 				}
 				mu.Unlock()
